@@ -2484,6 +2484,31 @@ pub fn check_c20(ix: &Ix<'_>, v: &mut Vec<Violation>) {
                     }
                 }
             }
+            // a read timeout needs a frame that is arriving too slowly: with both timers configured, a read
+            // timeout on a connection whose delivered bytes all form complete packets is a timer that was
+            // armed for nothing (or not handed back to the keep-alive regime)
+            if let Some((sq, _, _)) = rd_stop {
+                let ts = t_of(*sq);
+                let mut open_since: Option<u64> = None;
+                let mut pending = false;
+                for s in ix.sent.iter().filter(|s| s.conn == conn && !matches!(s.pkt, Some(Pkt::Connect(_)))) {
+                    let Some(d) = s.delivered.map(t_of) else { continue };
+                    if d > ts {
+                        break;
+                    }
+                    if s.pkt.is_none() {
+                        open_since.get_or_insert(d);
+                    } else {
+                        // (a frame completed within the last second before the timeout still counts as pending:
+                        // the timer works on a 1 s grid)
+                        pending = open_since.is_some() && d + 1000 >= ts;
+                        open_since = None;
+                    }
+                }
+                if open_since.is_none() && !pending {
+                    viol(v, "C20", format!("C20/read-timeout-without-partial-frame/{role}"), format!("read timeout at {ts} ms although every byte delivered so far belongs to a complete packet"), *sq);
+                }
+            }
         }
         "read-rate" => {
             let Some((timeout, max_timeout, rate)) = out.plan.cfg.frame_read_rate else { return };
